@@ -203,13 +203,6 @@ Proof.
       intro Hin. apply existsb_memgate_In in Hin. congruence.
 Qed.
 
-Lemma chain_required_gate_first : forall h a rest,
-  hdr_verifies h = false ->
-  chain_run (ra_proof MRequire h (Some a) :: rest) = (RExn (XProof (hdr_reason h)), [EvGate]).
-Proof.
-  intros h a rest Hh. rewrite (ra_require_unproven h (Some a) Hh). reflexivity.
-Qed.
-
 (* a gated member that fails anywhere in a chain ends the chain: no later member is called *)
 Lemma chain_go_gate_failure : forall pre r rest codes log,
   (forall x, In x pre -> exists e, fst x = RExn e /\ swallowed_with chain_swallows e = true) ->
@@ -221,4 +214,14 @@ Proof.
   - destruct (Hpre (x, l) (or_introl eq_refl)) as [e [Hx Hs]]. simpl in Hx. subst x.
     cbn [app chain_go]. rewrite Hs. rewrite IH; [|intros y Hy; apply Hpre; right; exact Hy].
     cbn [flat_map snd]. rewrite <- !app_assoc. reflexivity.
+Qed.
+
+Lemma chain_required_gate_anywhere : forall pre h a rest codes log,
+  hdr_verifies h = false ->
+  (forall x, In x pre -> exists e, fst x = RExn e /\ swallowed_with chain_swallows e = true) ->
+  chain_go chain_swallows (pre ++ ra_proof MRequire h (Some a) :: rest) codes log =
+  (RExn (XProof (hdr_reason h)), log ++ flat_map snd pre ++ [EvGate]).
+Proof.
+  intros pre h a rest codes log Hh Hpre.
+  rewrite (ra_require_unproven h (Some a) Hh). apply chain_go_gate_failure. exact Hpre.
 Qed.
